@@ -372,6 +372,10 @@ fn blanks(input: Span) -> IResult<Span, ()> {
     V("seed-C06-r2-m1-subword-level-dropped", [("@patch", "seeded/C06-r2-m1/patch.diff")], {"C06": "FIELDCOVER:dfa::Inp::get_fallback_level", "C02": "FIELDCOVER:dfa::Inp::get_fallback_level"}),
     V("seed-C06-r2-m2-subword-compadd-not-collected", [("@patch", "seeded/C06-r2-m2/patch.diff")], {"C06": "FIELDCOVER:dfa::DFA::get_commands:match#2:Compadd.cmd", "C04": "FIELDCOVER:dfa::DFA::get_commands"}),
     V("seed-C06-r2-m3-mixed-column-units", [("@patch", "seeded/C06-r2-m3/patch.diff")], {"C06": "SPANLINE:parse::HumanSpan:one-column-unit", "C13": "UNITS:parse::HumanSpan:one-column-unit"}),
+    V("seed-C08-r2-m1-preorder", [("@patch", "seeded/C08-r2-m1/patch.diff")], {"C08": "TOPO"}),
+    V("seed-C09-r2-m1-loop-var-clobber", [("@patch", "seeded/C09-r2-m1/patch.diff")], {"C09": "SK-SCOPE"}),
+    V("seed-C09-r2-m2-renumber-before-trim", [("@patch", "seeded/C09-r2-m2/patch.diff")], {"C09": "CHAIN:dfa::do_minimize"}),
+    V("seed-C10-r2-m2-no-truncate", [("@patch", "seeded/C10-r2-m2/patch.diff")], {"C10": "OUTFILE", "C06": "OUTFILE"}),
     # ---------------- C10
     V("c10-std-hashset-in-dfa", [("src/dfa.rs", "use hashbrown::{HashMap, HashSet};", "use hashbrown::HashMap;\nuse std::collections::HashSet;")], {"C10": "HASHORD:dfa::dfa_from_regex"}),
     V("c10-env-var", [("src/lib.rs", '    let version = env!("COMPLGEN_VERSION");', '    let version = std::env::var("COMPLGEN_VERSION").unwrap_or_default();')], {"C10": "AMBIENT:signature"}),
